@@ -998,6 +998,14 @@ func buildAnyCRLsWithCerts(
 			var crlIdentifier crlID
 			var crlIdIssuer issuerID
 			for _, issuerId := range issuersSet {
+				// Pull in the revoked certs associated with this member. This
+				// happens regardless of the member's usages: all members of
+				// the set share one CRL, so revocations recorded against a
+				// member which cannot sign CRLs itself still belong on it.
+				if thisRevoked, ok := revokedCertsMap[issuerId]; ok && len(thisRevoked) > 0 {
+					revokedCerts = append(revokedCerts, thisRevoked...)
+				}
+
 				// Skip entries which aren't enabled for CRL signing. We don't
 				// particularly care which issuer is ultimately chosen as the
 				// set representative for signing at this point, other than
@@ -1024,11 +1032,6 @@ func buildAnyCRLsWithCerts(
 				// chosen one.
 				if representative == issuerID("") {
 					representative = issuerId
-				}
-
-				// Pull in the revoked certs associated with this member.
-				if thisRevoked, ok := revokedCertsMap[issuerId]; ok && len(thisRevoked) > 0 {
-					revokedCerts = append(revokedCerts, thisRevoked...)
 				}
 
 				// Finally, check our crlIdentifier.
